@@ -2,7 +2,7 @@ use crate::GlobalRules;
 
 use crate::check_var::{check_rewriters_in_transform, CheckHint};
 use crate::fixer::Fixer;
-use crate::rule::DeserializeEnv;
+use crate::rule::{DeserializeEnv, RuleSerializeError};
 use crate::rule_core::{RuleCore, RuleCoreError, SerializableRuleCore};
 
 use ast_grep_core::language::Language;
@@ -143,7 +143,10 @@ impl<L: Language> SerializableRuleConfig<L> {
         .core
         .get_matcher_with_hint(env.clone(), CheckHint::Rewriter(&vars))
         .map_err(|e| RuleConfigError::Rewriter(e, val.id.clone()))?;
-      reg.insert_rewriter(&val.id, rewriter);
+      // two rewriters with one id: an error of the rule file, not a panic
+      reg
+        .insert_rewriter(&val.id, rewriter)
+        .map_err(|e| RuleConfigError::Rewriter(RuleSerializeError::from(e).into(), val.id.clone()))?;
     }
     check_rewriters_in_transform(rule, reg.get_rewriters())?;
     Ok(())
